@@ -113,6 +113,33 @@ def run(ctx):
             ok = ("iter_nested_value((self.args, self.kwargs))" in t and ".is_valid()" in t) or ("is_valid_nested(self.value)" in t)
         r5.check(ok, f"{cm.rel}:{c.name}.is_valid", f"{c.name} does not validate the values nested in {payload} (it inherits Value.is_valid() == True): a cached result of this kind is replayed although a File/Handle inside it changed", cm.rel, c.lineno)
 
+    # every other Value class that stores caller-supplied argument tuples (self.args / self.kwargs set in __init__) -- e.g. PartialTask -- must
+    # validate what is nested in them as well
+    vbase = vm.cls("Value")
+    for cm, c in repo.subclasses(vbase, strict=True):
+        if any(cc is ebase for _, cc in repo.mro(cm, c)):
+            continue  # expressions: handled above
+        init_fn = next((st for st in c.body if isinstance(st, FuncNode) and st.name == "__init__"), None)
+        if init_fn is None:
+            continue
+        stored = {t.attr for n in ast.walk(init_fn) if isinstance(n, ast.Assign) for t in n.targets if isinstance(t, ast.Attribute) and isinstance(t.value, ast.Name) and t.value.id == "self" and t.attr in ("args", "kwargs")}
+        if stored != {"args", "kwargs"}:
+            continue
+        res = repo.resolve_method(cm, c, "is_valid")
+        fn = res[2] if res else None
+        ok = False
+        if fn is not None:
+            t = src(fn)
+            ok = "self.args" in t and "self.kwargs" in t and ("is_valid_nested" in t or ("iter_nested_value" in t and ".is_valid()" in t))
+        r5.check(
+            ok,
+            f"{cm.rel}:{c.name}.is_valid",
+            f"{c.name} stores caller-supplied (args, kwargs) but its is_valid() ({res[1].name if res else '?'}.is_valid) does not validate the values nested in them: a cached {c.name} is replayed "
+            "although a File/Handle bound in its arguments changed",
+            cm.rel,
+            c.lineno,
+        )
+
     r4 = ctx.rule("C04.4", "an invalid or missing cached result is reported as a miss (re-execution)", floor=1)
     ex = sm.func("Scheduler._exec_job_main_thread")
     c2 = CFG(ex)
